@@ -808,7 +808,7 @@ func c15SessionInContext(c *Ctx) {
 			if !c.P.IsLib(sc) || !returnsCtx(sc) || sc.Blocks == nil {
 				return false
 			}
-			all, any := true, false
+			all, any, injects := true, false, false
 			for _, b := range sc.Blocks {
 				ret, ok := b.Instrs[len(b.Instrs)-1].(*ssa.Return)
 				if !ok || b == sc.Recover {
@@ -822,12 +822,19 @@ func c15SessionInContext(c *Ctx) {
 					s2 := ir.StaticCallee(c2)
 					return s2 != nil && inj[s2]
 				}}
-				// inside the helper, the helper's own parameter is "not yet injected"
-				if ok, _ := inner.descendsLocal(sc, ir.Results(ret)[0], 0, map[ctxKey]bool{}); !ok {
+				// inside the helper, the helper's own parameter is "not yet injected"; handing it back untouched is the
+				// "no session, nothing to inject" exit (like `if session != nil { ctx = inject(ctx, session) }` inline)
+				rv := ir.Results(ret)[0]
+				if _, isParam := unspill(rv).(*ssa.Parameter); isParam {
+					continue
+				}
+				if ok, _ := inner.descendsLocal(sc, rv, 0, map[ctxKey]bool{}); !ok {
 					all = false
+				} else {
+					injects = true
 				}
 			}
-			return any && all
+			return any && all && injects
 		}
 		var scope map[*ssa.Function]bool
 		if row.server != "" {
@@ -992,7 +999,7 @@ func c15IDPresence(c *Ctx) {
 			visit(v, false, 0)
 		})
 	}
-	if nLoads < 6 || nCond < 6 {
+	if nLoads < 6 || nCond < 2 { // (a classification helper may concentrate the presence tests in one place)
 		c.R.Break("R-id-presence: only %d loads of an id member and %d presence tests found on the server side", nLoads, nCond)
 	}
 	c.R.Hold("R-id-presence", "id members of decoded messages on the server side", "", sprintf("%d loads examined, %d presence tests (comparison with nil), no test computed from the id's value", nLoads, nCond))
